@@ -19,6 +19,10 @@ type c13Case struct {
 	// collections, then allocations of the same shape (gcpass.go)
 	GCWindow bool `json:"gc_window,omitempty"`
 	S, E     int  `json:"s,omitempty"`
+	// Outgrown: a buffer Alloc(C, K, K) of which a window is kept is grown by Append (it moves to new
+	// storage, the window keeps the old one); then Alloc(C2, L2, K2): fresh, and independent of the window
+	// over the outgrown storage and of the grown buffer
+	Outgrown bool `json:"outgrown,omitempty"`
 }
 
 func c13Run(cs c13Case) []F {
@@ -28,6 +32,9 @@ func c13Run(cs c13Case) []F {
 func c13RunRaw(cs c13Case) (fs []F) {
 	if cs.GCWindow {
 		return gcReplay(typeByName(cs.Type), gcShape{cs.C, cs.K, cs.S, cs.E}, false, "Alloc")
+	}
+	if cs.Outgrown {
+		return c13Outgrown(cs)
 	}
 	t := typeByName(cs.Type)
 	ty := dyn.Types[t]
@@ -77,6 +84,54 @@ func c13RunRaw(cs c13Case) (fs []F) {
 	for i := 0; i < fb.Len(); i++ {
 		if v := fb.Sample(i).Tok(); v != tk(int64(1+i)) {
 			fail("shared", "stamping the second allocation changed sample %d of the first to %v", i, v)
+			return
+		}
+	}
+	return
+}
+
+func c13Outgrown(cs c13Case) (fs []F) {
+	t := typeByName(cs.Type)
+	fail := func(kind, format string, a ...any) {
+		fs = append(fs, core.Failf("Alloc/"+kind+"/"+cs.Type, "Alloc[%s](C=%d,L=%d,K=%d) after a buffer Alloc(C=%d,K=%d) was outgrown by Append while a window of it is kept: %s", cs.Type, cs.C2, cs.L2, cs.K2, cs.C, cs.K, fmt.Sprintf(format, a...)))
+	}
+	old := dyn.Alloc(t, al(cs.C, cs.K, cs.K))
+	fill(old, 1)
+	win := full(old)
+	src := dyn.Alloc(t, al(cs.C, 1, 1))
+	fill(src, 90)
+	old.Append(src) // grows: moves to new storage
+	b := dyn.Alloc(t, al(cs.C2, cs.L2, cs.K2))
+	fb := full(b)
+	for i := 0; i < fb.Len(); i++ {
+		if v := fb.Sample(i); v.B != 0 {
+			fail("nonzero", "sample %d of the fresh buffer is %v", i, v)
+			return
+		}
+	}
+	for i := 0; i < win.Len(); i++ {
+		if g := win.Sample(i).Tok(); g != tk(int64(1+i)) {
+			fail("shared", "the allocation changed sample %d of the window over the outgrown storage from %d to %d", i, tk(int64(1+i)), g)
+			return
+		}
+	}
+	fill(fb, 40)
+	for i := 0; i < win.Len(); i++ {
+		if g := win.Sample(i).Tok(); g != tk(int64(1+i)) {
+			fail("shared", "stamping the fresh buffer changed sample %d of the window over the outgrown storage to %d", i, g)
+			return
+		}
+	}
+	for i := 0; i < cs.C*cs.K; i++ {
+		if g := old.Sample(i).Tok(); g != tk(int64(1+i)) {
+			fail("shared", "stamping the fresh buffer changed sample %d of the grown buffer to %d", i, g)
+			return
+		}
+	}
+	fill(win, 60)
+	for i := 0; i < fb.Len(); i++ {
+		if g := fb.Sample(i).Tok(); g != tk(int64(40+i)) {
+			fail("shared", "a write through the window over the outgrown storage changed sample %d of the fresh buffer to %d", i, g)
 			return
 		}
 	}
@@ -134,6 +189,19 @@ func init() {
 				c.Check(c13Case{Type: tn(t), C: sh.C, L: sh.K, K: sh.K, GCWindow: true, S: sh.S, E: sh.E}, true, fs)
 			})
 			c.Set("windows_kept_across_garbage_collections", gcN)
+			// allocations right after a buffer was outgrown by Append while a window of its old storage is kept
+			var og []c13Case
+			for _, t := range []int{dyn.Int8, dyn.Int32, dyn.Float64, dyn.MyInt16ID()} {
+				for C := 1; C <= 3; C++ {
+					for _, K := range []int{1, 2, 5, 64} {
+						og = append(og, c13Case{Type: tn(t), C: C, K: K, Outgrown: true, C2: C, L2: 0, K2: K},
+							c13Case{Type: tn(t), C: C, K: K, Outgrown: true, C2: C, L2: K, K2: K},
+							c13Case{Type: tn(t), C: C, K: K, Outgrown: true, C2: 1, L2: 1, K2: C * K},
+							c13Case{Type: tn(t), C: C, K: K, Outgrown: true, C2: C, L2: 1, K2: K + 1})
+					}
+				}
+			}
+			c.ParallelFor(len(og), func(i int) { c.Check(og[i], true, c13Run(og[i])) })
 			// many allocations in a row (a counter, a recycled arena): every one fresh and independent of the
 			// ones still alive; sequential on purpose
 			for _, t := range []int{dyn.Int8, dyn.Float64, dyn.MyInt16ID()} {
@@ -165,7 +233,7 @@ func init() {
 			c.Sample(cases[0])
 			c.Sample(cases[len(cases)/2])
 			c.Sample(cases[len(cases)-1])
-			c.Set("rule", "every (element type in 13 built-in + 13 named) x C in {1..9,16,32,64,65,100,255,256,300,1024; 65535, 65536, 65538, 2^17+1 with K <= 3 for three types} x K in {0..8,63,64,65,1000,1025[,4096,20000]} x L (all L<=K for K<=8, else {0,1,K-1,K}), plus all ordered pairs of 10 shapes per type, plus 600 allocations in a row kept alive and re-inspected; a case is non-trivial when K>0 (there is storage to inspect); cases are distinct by construction (each tuple enumerated once)")
+			c.Set("rule", "every (element type in 13 built-in + 13 named) x C in {1..9,16,32,64,65,100,255,256,300,1024; 65535, 65536, 65538, 2^17+1 with K <= 3 for three types} x K in {0..8,63,64,65,1000,1025[,4096,20000]} x L (all L<=K for K<=8, else {0,1,K-1,K}), plus all ordered pairs of 10 shapes per type, plus 600 allocations in a row kept alive and re-inspected, plus allocations made right after a buffer of the same total capacity was outgrown by Append while a window of its old storage is kept; a case is non-trivial when K>0 (there is storage to inspect); cases are distinct by construction (each tuple enumerated once)")
 			c.Set("types", len(dyn.Types))
 			c.Assume("the full capacity is inspected through Slice(0,Capacity), whose own correctness is C02's subject", "linux/amd64 only")
 		},
